@@ -472,3 +472,35 @@ def modelrun(lines, timeout=1200, nproc=NCPU):
         for j, r in enumerate(part):
             res[ci + j * nproc] = r
     return res
+
+
+# axioms declared by the Coq standard library that loaded libraries (Reals, Flocq, Coquelicot) rely on
+COQCHK_STDLIB_AXIOMS = [
+    "Coq.Logic.FunctionalExtensionality.functional_extensionality_dep",
+    "Coq.Reals.ClassicalDedekindReals.sig_not_dec",
+    "Coq.Reals.ClassicalDedekindReals.sig_forall_dec",
+    "Coq.Logic.Classical_Prop.classic",
+    "Coq.Logic.ProofIrrelevance.proof_irrelevance",
+    "Coq.Logic.Eqdep.Eq_rect_eq.eq_rect_eq",
+    "Coq.Logic.PropExtensionality.propositional_extensionality",
+    "Coq.Logic.Epsilon.epsilon_statement",
+    "Coq.Logic.ClassicalEpsilon.constructive_indefinite_description",
+    "Coq.Logic.IndefiniteDescription.constructive_indefinite_description",
+]
+
+
+def coqchk(module, timeout=2400):
+    """coqchk -o on PMH.<module>; returns (ok, axioms, raw)"""
+    with Lock("coq"):
+        rc, raw = sh(["coqchk", "-silent", "-o", "-Q", ".", "PMH", "PMH." + module], cwd=COQ, timeout=timeout)
+    if rc != 0 or "CONTEXT SUMMARY" not in raw:
+        return False, [], raw
+    tail = raw.split("CONTEXT SUMMARY", 1)[1]
+    ok = all(("* %s: <none>" % k) in tail for k in (
+        "Constants/Inductives relying on type-in-type", "Constants/Inductives relying on unsafe (co)fixpoints",
+        "Inductives whose positivity is assumed"))
+    axioms = []
+    m = re.search(r"\* Axioms:(.*?)\n\s*\n", tail, flags=re.S)
+    if m and "<none>" not in m.group(1):
+        axioms = [a.strip() for a in m.group(1).split("\n") if a.strip()]
+    return ok, axioms, raw
